@@ -45,7 +45,7 @@ INFO = {
  "C09-b-zero-mask-all-ones": ("BDT mask `or 0xFFFFFFFF`: a /0 mask goes out as all ones", "a distribution table entry with mask 0.0.0.0", "caught as built"),
  "C16-a-burst-freezes-baseline": ("DetectionMonitor.property_change returns before updating the algorithm's copy when already triggered", "analog object, two writes in one instant, then a write whose verdict differs between true and stale baseline", "caught as built"),
  "C16-b-indefinite-renewal-keeps-old-timer": ("renew_subscription no longer suspends the expiry task before re-arming", "finite subscription renewed as indefinite, clock passes the original expiry", "caught as built"),
- "C06-a-stale-snet-after-renumber": ("outgoing adapter chosen through RouterInfo.snet, which update_source_network never re-keys", "station bound without a network number learns a route, then receives Network-Number-Is, then sends to that network", "not caught by C06 (its stations never learn their number after a route); caught by C19, whose wire part sends exactly this frame order and probes with application traffic (`probe:raises-KeyError`)"),
+ "C06-a-stale-snet-after-renumber": ("outgoing adapter chosen through RouterInfo.snet, which update_source_network never re-keys", "station bound without a network number learns a route, then receives Network-Number-Is, then sends to that network", "missed by C06 at first (its stations never learned their number after a route; C19's wire part caught it as `probe:raises-KeyError`); caught by C06 itself after the 'nwarm' table mode was added (routers announce Network-Number-Is after the stations learned their routes)"),
  "C06-b-iam-router-relay-only-new": ("a router relays only I-Am-Router-To-Network entries new to its cache", "two routers on the path and a routed frame from the destination network crossing the first router while discovery is under way", "caught as built (delivery-order deviations)"),
  "C15-a-falsy-command-stored-as-null": ("_Commando.WriteProperty tests `not value`: a commanded 0 / empty value is stored as Null", "commandable object, falsy value, another slot active or priorityArray read back", "not caught by C15 (commandable objects are left to C17 there); caught by C17 (`slots:command-without-priority-not-at-16`, value 0.0 is in its alphabet)"),
  "C15-b-rpm-selectors-skip-computed": ("RPM selector expansion skips properties whose stored value is None (computed properties)", "selector RPM to an object with a computed property (device object)", "caught as built"),
@@ -54,7 +54,7 @@ INFO = {
 }
 
 # seeded changes whose own property's check is silent but a sibling property's check decides them
-DETECTED_BY = {"C06-a-stale-snet-after-renumber": "C19", "C15-a-falsy-command-stored-as-null": "C17"}
+DETECTED_BY = {"C15-a-falsy-command-stored-as-null": "C17"}
 
 
 def main():
